@@ -69,7 +69,7 @@ def gen_cases(tier, seed):
                         s['cancel_msg'] = rng.choice(msgs)
                         if how == 'with_exc':
                             # any non-interrupt exception: an ordinary Exception, SystemExit, GeneratorExit, a BaseException subclass
-                            s['with_exc_type'] = rng.choice([None, None, 'systemexit', 'generatorexit', 'base', 'cancelled', 'fatal'])
+                            s['with_exc_type'] = rng.choice([None, None, 'systemexit', 'generatorexit', 'base', 'cancelled', 'fatal', 'oserror3', 'keyerror', 'multiarg'])
                         s['plan'] = {'cancel': {'at': k, 'phase': phase, 'how': how, 'from': 'main'}}
                     s['plan']['delay_p'] = rng.choice([0.0, 0.2])
                     cases.append(s)
@@ -89,7 +89,7 @@ def gen_cases(tier, seed):
                     s['mode'] = how
                     s['trigger'] = 'immediate'
                     if how == 'with_exc':
-                        s['with_exc_type'] = rng.choice([None, 'systemexit', 'generatorexit', 'base', 'cancelled', 'fatal'])
+                        s['with_exc_type'] = rng.choice([None, 'systemexit', 'generatorexit', 'base', 'cancelled', 'fatal', 'oserror3', 'keyerror', 'multiarg'])
                     s['plan'] = {'gate': {'match': 't0/cb:on_queued', 'phase': 'before', 'count': 1, 'after_cancel_begin': True}}
                 cases.append(s)
         s = {'seed': rng.randrange(1 << 30), 'min_part': 8, 'config': dict(multipart_threshold=16, multipart_chunksize=8, io_chunksize=4),
@@ -251,7 +251,7 @@ def gen_cases(tier, seed):
               'trigger': 'immediate', 'cancel_msg': rng.choice(msgs), 'concurrent_submit': True, 'yield': site['yield'],
               'plan': {'gate': {'match': '/cb:on_queued', 'phase': 'before', 'count': n, 'after_cancel_begin': True}}}
         if how == 'with_exc':
-            sp['with_exc_type'] = rng.choice([None, 'systemexit', 'base', 'cancelled', 'fatal'])
+            sp['with_exc_type'] = rng.choice([None, 'systemexit', 'base', 'cancelled', 'fatal', 'oserror3', 'keyerror', 'multiarg'])
         cases.append(sp)
     rng.shuffle(cases)
     from ..gen import sprinkle
